@@ -1825,7 +1825,12 @@ def run(ast_dir, spec_paths, excluded_path, out_c, out_map, out_report, layouts_
         hs = getattr(gen, 'helper_specs', {}).get(nm)
         if hs: L += gen.tag_lines(hs, hs.contract)
         b = gen.helper_bodies[nm]
-        L += b if isinstance(b, list) else b.split('\n')
+        b = b if isinstance(b, list) else b.split('\n')
+        if hs and hs.ghost:
+            for a in hs.ghost:
+                if a != 'entry': raise SystemExit(f"cxx2c: spec {nm}: generated helpers support only '@ghost entry'")
+            b = [b[0], '    /* ghost entry */'] + gen.tag_lines(hs, hs.ghost['entry'], '    ') + b[1:]
+        L += b
     L.append('/* ---- translated functions ---- */')
     for cn, b in bodies.items():
         start = len(L) + 1
